@@ -91,6 +91,16 @@ def run(ctx):
                         "numeric literals that overflow to a non-finite float (1e999) are treated like the excluded literals Infinity / NaN"]
     files = record(ctx, ctx.tier == "quick")
     ctx.cov["traces_validated_against_impl"] = judge_files(ctx, files, mine)
+    if ctx.prop == "C02":
+        # "terminates without raising" under concurrency: requests served by several dispatcher threads under controlled
+        # schedules (the recorder of C13 / C04)
+        from checks import dconc
+        dconc.record_and_judge(ctx, {"NoRaiseConc", "TerminatesConc"})
+    if ctx.prop == "C03":
+        # the id echo under concurrency: two / three requests served by dispatcher threads under controlled schedules
+        # (the recorder of C13 / C04); each reply must carry the id of its own request
+        from checks import dconc
+        dconc.record_and_judge(ctx, {"OwnId"})
     if ctx.prop == "C05":
         # spec growth (not part of the verdict): the method registry as a state machine
         from checks import growth
